@@ -475,10 +475,17 @@ Proof.
       now rewrite restrict_tag_out by auto.
 Qed.
 
+Lemma validate_rules_unfold {D} (rd : D -> nat -> Z -> D * option Q) w tr f skip :
+  validate_rules rd w tr f skip = run_restrictions skip (restrictions rd w tr f).
+Proof. reflexivity. Qed.
+
 Theorem skip_is_filter_pure : forall w val tr f skip out,
   snd (validate_rules (pure_rd val) w tr f [] tt) = Some out ->
   snd (validate_rules (pure_rd val) w tr f skip tt) = Some (restrict_types skip out).
-Proof. intros. now apply skip_filter_run. Qed.
+Proof.
+  intros w val tr f skip out. rewrite !validate_rules_unfold.
+  generalize (restrictions (pure_rd val) w tr f). intros L H. apply skip_filter_run. exact H.
+Qed.
 
 (* ------------------------------------------------------------------ *)
 (* validation does not depend on the order in which registers list     *)
@@ -539,7 +546,7 @@ Lemma resource_result_perm rnd uses uses' out :
 Proof.
   intros H. unfold resource_result.
   pose proof (sum_opt_perm _ _ (Permutation_map snd H)) as Hs. unfold osum_eq in Hs.
-  destruct (sum_opt (map snd uses)) as [s|], (sum_opt (map snd uses')) as [s'|]; try tauto; [|simpl; auto].
+  destruct (sum_opt (map snd uses)) as [s|], (sum_opt (map snd uses')) as [s'|]; try (simpl; tauto).
   rewrite (Qred_complete _ _ Hs).
   destruct (Qle_bool _ (or0 out)); [simpl; auto|]. now apply collect_perm.
 Qed.
@@ -559,7 +566,9 @@ Lemma run_equiv skip : forall (l l' : list (Z * (unit -> unit * rres))),
 Proof.
   intros l l' H. induction H as [|p p' l l' [Ht Hp] _ IH].
   - apply oequiv_refl.
-  - rewrite !run_cons, <- Ht. destruct (mem zeqb skip (fst p)); auto.
+  - destruct p as [t m], p' as [t' m']. cbn [fst snd] in *. subst t'.
+    unfold run_restrictions in *. cbn [fold_right fst snd].
+    destruct (mem zeqb skip t); auto.
     rewrite !pure_bind. unfold ret. cbn [snd]. apply vres_app_equiv; auto. now apply tag_equiv.
 Qed.
 
@@ -733,23 +742,25 @@ Section Live.
                       | context [match ?x with _ => _ end] => destruct x eqn:?
                       | context [if ?x then _ else _] => destruct x eqn:?
                       end.
-  Ltac fin H := try discriminate H; inversion H; subst; repeat constructor; unfold K; simpl;
-                eauto using live_item, live_charge, items_live.
+  Ltac fin H := try discriminate H; inversion H; subst; clear H;
+                repeat (apply Forall_cons || apply Forall_nil); unfold K; cbn [fst];
+                try (apply live_item; solve [eauto using items_live]);
+                try (eapply live_charge; [solve [eauto using items_live]|eassumption]).
 
   Lemma live_resource reg ua oa rnd out :
     snd (v_resource prd w tr f reg ua oa rnd tt) = Some out -> Forall K out.
   Proof.
     unfold v_resource. rewrite !pure_bind, uses_pure. unfold ret. cbn [snd]. unfold resource_result.
     destruct (sum_opt _); [|discriminate]. destruct (Qle_bool _ _); [intros H; inversion H; constructor|].
-    intros H. eapply collect_forall; [exact H|]. intros [x v] o Ha Hg. cbn [fst snd] in Hg.
+    intros H. eapply collect_forall; [exact H|]. intros [x v] oo Ha Hg. cbn beta zeta in Hg; cbn [fst snd] in Hg.
     apply in_map_iff in Ha. destruct Ha as [y [E Hy]]. inversion E; subst.
-    destruct (val x ua); [|discriminate]. destruct (Qle_bool q 0); fin Hg.
+    destruct (val x ua); [|discriminate]. dm Hg; fin Hg.
   Qed.
   Lemma live_slot_entries used total keys out :
     slot_entries used total keys = Some out -> Forall (key_live w f) keys -> Forall K out.
   Proof.
-    unfold slot_entries. destruct (used >? total); intros H Hk; inversion H; [|constructor].
-    clear H. induction Hk; simpl; constructor; auto.
+    unfold slot_entries. destruct (used >? total); intros H Hk; inversion H; subst; [|constructor].
+    clear H. induction Hk; simpl; constructor; unfold K; simpl; auto.
   Qed.
   Lemma live_stat_slot reg h a out : snd (v_stat_slot prd tr reg h a tt) = Some out -> Forall K out.
   Proof.
@@ -777,58 +788,57 @@ Section Live.
   Lemma live_max_group k out : snd (v_max_group prd w tr k tt) = Some out -> Forall K out.
   Proof.
     unfold v_max_group. rewrite pure_bind, uses_pure. unfold ret. cbn [snd]. intros H.
-    eapply collect_forall; [exact H|]. intros [x v] o Ha Hg. cbn [fst snd] in Hg.
+    eapply collect_forall; [exact H|]. intros [x v] oo Ha Hg. cbn beta zeta in Hg; cbn [fst snd] in Hg.
     apply in_map_iff in Ha. destruct Ha as [y [E Hy]]. inversion E; subst.
-    destruct (type_group w x); [|discriminate]. destruct (val x (mg_attr k)); [|discriminate].
-    destruct (zleq _ _); fin Hg.
+    dm Hg; fin Hg.
   Qed.
   Lemma live_slot_index k out : v_slot_index tr k = Some out -> Forall K out.
   Proof.
-    intros H. eapply collect_forall; [exact H|]. intros [x p] o Ha Hg. cbn [fst snd] in Hg.
-    destruct p; try (fin Hg; fail). destruct (Nat.ltb _ _); fin Hg.
+    intros H. eapply collect_forall; [exact H|]. intros [x p] oo Ha Hg. cbn beta zeta in Hg; cbn [fst snd] in Hg.
+    dm Hg; fin Hg.
   Qed.
   Lemma live_capital out : v_capital w tr f = Some out -> Forall K out.
   Proof.
     unfold v_capital. match goal with |- context [if ?b then _ else _] => destruct b end;
       intros H; [inversion H; constructor|].
-    eapply collect_forall; [exact H|]. intros x o Ha Hg. cbn beta in Hg. dm Hg; fin Hg.
+    eapply collect_forall; [exact H|]. intros x oo Ha Hg. cbn beta zeta in Hg. dm Hg; fin Hg.
   Qed.
   Lemma live_charge_group out : v_charge_group w tr = Some out -> Forall K out.
   Proof.
-    intros H. eapply collect_forall; [exact H|]. intros [x p] o Ha Hg. cbn [fst snd] in Hg. dm Hg; fin Hg.
+    intros H. eapply collect_forall; [exact H|]. intros [x p] oo Ha Hg. cbn beta zeta in Hg; cbn [fst snd] in Hg. dm Hg; fin Hg.
   Qed.
   Lemma live_charge_size out : v_charge_size w tr = Some out -> Forall K out.
-  Proof. intros H. eapply collect_forall; [exact H|]. intros x o Ha Hg. cbn beta in Hg. dm Hg; fin Hg. Qed.
+  Proof. intros H. eapply collect_forall; [exact H|]. intros x oo Ha Hg. cbn beta zeta in Hg. dm Hg; fin Hg. Qed.
   Lemma live_charge_volume out : v_charge_volume w tr = Some out -> Forall K out.
   Proof.
-    intros H. eapply collect_forall; [exact H|]. intros x o Ha Hg. cbn beta zeta in Hg.
-    destruct (w_charge w x) eqn:Ec; [|fin Hg]. destruct (Qle_bool _ _); fin Hg.
+    intros H. eapply collect_forall; [exact H|]. intros x oo Ha Hg. cbn beta zeta in Hg.
+    dm Hg; fin Hg.
   Qed.
   Lemma live_drone_group out : v_drone_group w tr f = Some out -> Forall K out.
   Proof.
     unfold v_drone_group. destruct (w_ship w f); [|intros H; inversion H; constructor].
     destruct (w_static w n); [|intros H; inversion H; constructor].
     destruct (attr_values s DRONE_GROUP_ATTRS); [intros H; inversion H; constructor|].
-    intros H. eapply collect_forall; [exact H|]. intros x o Ha Hg. cbn beta in Hg. dm Hg; fin Hg.
+    intros H. eapply collect_forall; [exact H|]. intros x oo Ha Hg. cbn beta zeta in Hg. dm Hg; fin Hg.
   Qed.
   Lemma live_rig_size out : v_rig_size w tr f = Some out -> Forall K out.
   Proof.
     unfold v_rig_size. destruct (w_ship w f); [|intros H; inversion H; constructor].
     destruct (w_tattr w n AttrId_rig_size); [|intros H; inversion H; constructor].
-    intros H. eapply collect_forall; [exact H|]. intros x o Ha Hg. cbn beta in Hg. dm Hg; fin Hg.
+    intros H. eapply collect_forall; [exact H|]. intros x oo Ha Hg. cbn beta zeta in Hg. dm Hg; fin Hg.
   Qed.
   Lemma live_stg out : v_ship_type_group w tr f = Some out -> Forall K out.
   Proof.
     unfold v_ship_type_group. match goal with |- context [let '(a, b) := ?x in _] => destruct x end.
-    intros H. eapply collect_forall; [exact H|]. intros [x p] o Ha Hg. cbn [fst snd] in Hg. dm Hg; fin Hg.
+    intros H. eapply collect_forall; [exact H|]. intros [x p] oo Ha Hg. cbn beta zeta in Hg; cbn [fst snd] in Hg. dm Hg; fin Hg.
   Qed.
   Lemma live_skillrq out : v_skill_requirement w tr f = Some out -> Forall K out.
   Proof.
-    intros H. eapply collect_forall; [exact H|]. intros x o Ha Hg. cbn beta zeta in Hg.
-    destruct (w_type w x); [|discriminate]. destruct (flat_map _ _); fin Hg.
+    intros H. eapply collect_forall; [exact H|]. intros x oo Ha Hg. cbn beta zeta in Hg.
+    dm Hg; fin Hg.
   Qed.
   Lemma live_state out : v_state w tr = Some out -> Forall K out.
-  Proof. intros H. eapply collect_forall; [exact H|]. intros x o Ha Hg. cbn beta in Hg. dm Hg; fin Hg. Qed.
+  Proof. intros H. eapply collect_forall; [exact H|]. intros x oo Ha Hg. cbn beta zeta in Hg. dm Hg; fin Hg. Qed.
   Lemma live_flat (g : nat -> list rentry_err) l :
     (forall x, In x l -> Forall K (g x)) -> Forall K (flat_map g l).
   Proof. intros H. apply Forall_forall. intros e He. apply in_flat_map in He. destruct He as [x [Hx He]].
@@ -856,10 +866,10 @@ Section Live.
     - rewrite run_nil. unfold ret. cbn [snd]. intros H. inversion H. constructor.
     - inversion Hl as [|? ? Hp Hl']; subst. rewrite run_cons. destruct (mem zeqb skip (fst p)); [now apply IH|].
       rewrite !pure_bind. unfold ret. cbn [snd].
-      destruct (snd (snd p tt)) as [la|]; [|discriminate].
-      destruct (snd (run_restrictions skip l tt)) as [lb|]; [|discriminate].
+      destruct (snd (snd p tt)) as [la|] eqn:Ea; [|discriminate].
+      destruct (snd (run_restrictions skip l tt)) as [lb|] eqn:Eb; [|discriminate].
       unfold tag, vres_app. intros H. inversion H; subst. apply Forall_app. split; [|now apply IH].
-      specialize (Hp la eq_refl). clear -Hp. induction Hp; simpl; constructor; auto.
+      specialize (Hp la Ea). clear -Hp. induction Hp; simpl; constructor; auto.
   Qed.
 
   Theorem reported_live_pure skip out :
